@@ -190,7 +190,7 @@ class Scanner:
     """Real TokenizedMarkdown + PluginManager + FileScanHelper wired to the VFS."""
 
     def __init__(self, enable="", disable="", config=None, extra_plugins=(), fix=False,
-                 continue_on_error=False):
+                 continue_on_error=False, tokenizer=None):
         from pymarkdown.file_scan_helper import FileScanHelper
         from pymarkdown.plugin_manager.plugin_manager import PluginManager
         from pymarkdown.return_code_helper import ReturnCodeHelper
@@ -199,11 +199,14 @@ class Scanner:
         self.props = ApplicationProperties()
         if config:
             self.props.load_from_dict(config)
-        em = ExtensionManager(self.pres)
-        em.initialize(None, self.props)
-        em.apply_configuration()
-        self.tok = TokenizedMarkdown()
-        self.tok.apply_configuration(self.props, em)
+        if tokenizer is not None:
+            self.tok = tokenizer  # built once, untraced (extensions do not depend on rule settings)
+        else:
+            em = ExtensionManager(self.pres)
+            em.initialize(None, self.props)
+            em.apply_configuration()
+            self.tok = TokenizedMarkdown()
+            self.tok.apply_configuration(self.props, em)
         self.pm = PluginManager(self.pres)
         self.pm.initialize(plugin_dir(), list(extra_plugins), enable, disable, self.props, False, False)
         self.pm.apply_configuration(self.props)
